@@ -233,6 +233,13 @@ func (s *scenario) sync(hard time.Duration) (ok, stuck bool) {
 	}
 }
 
+func lockArgs() []string {
+	if !lockStep {
+		return []string{}
+	}
+	return []string{fmt.Sprintf("lock=%d:%d:%d", lockTable[0], lockTable[1], lockTable[2])}
+}
+
 func lockNote() string {
 	if !lockStep {
 		return ""
@@ -850,7 +857,7 @@ func main() {
 			}
 			shapes[shape(d)] = true
 			for _, dv := range run(d) {
-				vh.Violation(dv.Prop+":wallet:"+dv.What, dv.Msg+"\n  scenario: "+shape(d), map[string]interface{}{"engine": "wallet", "calls": d.Calls, "obs": d.Obs, "diverges_at": dv.Step, "prop": dv.Prop})
+				vh.Violation(dv.Prop+":wallet:"+dv.What, dv.Msg+"\n  scenario: "+shape(d), map[string]interface{}{"engine": "wallet", "calls": d.Calls, "obs": d.Obs, "diverges_at": dv.Step, "prop": dv.Prop, "driver_args": lockArgs()})
 			}
 			if (idx/stride)%1500 == 17 {
 				vh.Sample(map[string]interface{}{"calls": d.Calls, "expected_wallet": d.Obs.Now.Wallet, "spendable_next": d.Obs.Now.Spendable})
@@ -896,7 +903,7 @@ func main() {
 	flaky := runPool(nw, append([]string{os.Args[2], stride}, extra...), func(idx int, tail string) {
 		d := loadCase(os.Args[2], idx*sn+int(vh.Seed())%sn)
 		vh.Violation("C24:wallet:panic", fmt.Sprintf("the process (node + wallet) died while replaying the scenario %s:\n%s", shape(d), tail),
-			map[string]interface{}{"engine": "wallet", "calls": d.Calls, "obs": d.Obs, "prop": "C24"})
+			map[string]interface{}{"engine": "wallet", "calls": d.Calls, "obs": d.Obs, "prop": "C24", "driver_args": lockArgs()})
 	})
 	vh.Summary(map[string]interface{}{"partial": true, "unreproducible_worker_deaths": flaky})
 }
